@@ -49,6 +49,31 @@ def untrusted_sort(F, b, t):
     return None
 
 
+def rekeyed_by_value(F, b, adapters):
+    """reason string when a `map`-like adapter on the way builds the first tuple component (the new key) from anything
+    but the first component of its input (the old key); None otherwise"""
+    for u in adapters:
+        cn = callee_name(u) or ""
+        if not re.search(r"Iterator>?::(map|filter_map|flat_map)$", cn) or len(u["args"]) < 2:
+            continue
+        rv = b.def_rvalue(u["args"][1])
+        g = F.fns.get(rv.get("id")) if rv and rv["k"] == "agg" else None
+        if g is None or not g.body:
+            return "through a closure that could not be inspected"
+        gb = Body(g)
+        for bi, blk in enumerate(gb.blocks):
+            for st in blk["st"]:
+                if st["k"] == "assign" and st["p"]["l"] == 0 and not st["p"]["p"] and st["rv"]["k"] == "agg" and st["rv"].get("ak") == "tuple" and len(st["rv"]["ops"]) == 2:
+                    for q in ctrl.slice_paths(gb, [st["rv"]["ops"][0]]):
+                        if q[0] == ("arg", 2):
+                            first = [x for x in q[1] if not str(x).startswith(("as ", "["))][:1]
+                            if first and first[0] != "0":
+                                return "with keys made from the old entries' values"
+                        elif q[0][0] == "arg" and q[0][1] == 1 and q[1]:
+                            return "with keys made from captured state"
+    return None
+
+
 _KO = {}
 
 
@@ -109,6 +134,7 @@ def run(ctx):
         # forward-follow the iterator value
         S = {t["dest"]["l"]}
         consumers = []  # (kind, bb, term)
+        adapters = []
         changed = True
         seen_calls = set()
         while changed:
@@ -140,6 +166,7 @@ def run(ctx):
                     consumers.append(("loop", bj, u))
                 elif nd.ADAPTER.search(cn):
                     S.add(u["dest"]["l"])
+                    adapters.append(u)
                     changed = True
                 elif re.search(r"Iterator::collect$|FromIterator<.*>>::from_iter$", cn):
                     consumers.append(("collect", bj, u))
@@ -166,6 +193,13 @@ def run(ctx):
             if kind == "collect":
                 dty = b.local_ty(u["dest"]["l"])["s"]
                 if re.search(r"Hash(Map|Set)<|BTree(Map|Set)<", dty):
+                    # a map rebuilt from a map is order-free only while the keys stay the (unique) keys they were: a closure
+                    # that makes the key out of the VALUE can produce the same key twice, and then the entry the hash order
+                    # yields last wins
+                    if re.search(r"(Hash|BTree)Map<", dty):
+                        why = rekeyed_by_value(F, b, adapters)
+                        if why:
+                            bad.append("collected into `%s` %s: entries whose new keys collide are resolved in hash-map order (the last one visited wins)" % (dty.split("<")[0].split("::")[-1], why))
                     continue
                 # sorted immediately afterwards?
                 tgt = u["dest"]["l"]
@@ -298,6 +332,71 @@ def run(ctx):
             if nd.OTHER_SEED.search(n):
                 ctx.violation("R20.4", "%s/%s" % (f.short, n), "nondeterministic source %s in library code" % n, b.site(bi))
     ctx.floor("R20.2", "time_source_sites", n_time, 1)
+    # ---- R20.6 the creation timestamps stay in the timestamp fields: nothing outside gds21 reads their components
+    ctx.rule("R20.6", "the components of the GDSII creation timestamps (GdsDateTime: year .. second) are read only inside gds21 (its writer, reader and serialisers): converters and tools derive no other output (a name, a label, an ordering) from the wall clock")
+    DT = "gds21::data::GdsDateTime"
+    n_reads = 0
+    n_scanned = 0
+
+    def field_bases(b, place):
+        """ADT ids that each named field projection of the place is applied to"""
+        ty = b.local_ty(place["l"])
+        out = []
+        for e in place["p"]:
+            while ty and ty.get("k") in ("ref", "ptr"):
+                ty = ty["to"]
+            if e == "*" or isinstance(e, str):
+                continue
+            if "f" in e:
+                nxt = None
+                if ty and ty.get("k") == "adt":
+                    out.append(ty["id"])
+                    adt = F.adts.get(ty["id"])
+                    if adt:
+                        for v in adt["variants"]:
+                            for fl in v["fields"]:
+                                if fl["name"] == e["n"]:
+                                    nxt = fl["ty"]
+                elif ty and ty.get("k") == "tuple" and e["f"] < len(ty.get("args", [])):
+                    nxt = ty["args"][e["f"]]
+                ty = nxt
+            elif "dc" in e:
+                continue
+            else:
+                ty = ty.get("to") if ty and ty.get("k") in ("array", "slice") else None
+        return out
+    from rules.deadrules import _places
+    for f in F.fns.values():
+        if not f.body or f.derived or not f.id.startswith(("layout21", "lef21")):
+            continue
+        b = Body(f)
+        n_scanned += 1
+        for bi, blk in enumerate(b.blocks):
+            if blk["cleanup"]:
+                continue
+            acc = []
+            for st in blk["st"]:
+                if st["k"] == "assign":
+                    _places(st["rv"], acc)
+            t = blk["term"]
+            if t["k"] == "call":
+                _places(t["args"], acc)
+            elif t["k"] == "switch":
+                _places(t["on"], acc)
+            if t["k"] == "call" and re.search(r"fmt::rt::Argument::<.*>::new_\w+$", callee_name(t) or ""):
+                c_ = (t["f"] or {}).get("c") or {}
+                if any("GdsDateTime" in str(x) for x in (c_.get("rargs") or c_.get("gargs") or [])):
+                    n_reads += 1
+                    key = "%s/timestamp-format" % f.short
+                    ctx.violation("R20.6", key, "%s formats a GDSII creation timestamp into text: that text changes from one run to the next" % f.short, b.site(bi), key)
+            for p in acc:
+                if DT in field_bases(b, p):
+                    n_reads += 1
+                    key = "%s/timestamp-read" % f.short
+                    ctx.violation("R20.6", key, "%s reads a component of a GDSII creation timestamp: what it produces from it changes from one run to the next (only the timestamp fields themselves are exempt from determinism)" % f.short, b.site(bi), key)
+                    break
+    ctx.count("timestamp_component_reads_outside_gds21", n_reads)
+    ctx.floor("R20.6", "functions_scanned_for_timestamp_reads", n_scanned, 300)
     # ---- R20.5 no process-wide mutable state: a counter or table that outlives one conversion makes its result depend on
     # what the process converted before
     ctx.rule("R20.5", "library code keeps no process-wide mutable state (no `static` with interior mutability other than initialise-once cells): a conversion's result may not depend on earlier conversions in the same process")
